@@ -71,6 +71,47 @@ type (
 	}
 )
 
+// Inner/Outer: a field and a method-free struct promoted through an embedded pointer that may be nil.
+type Inner struct {
+	X   string
+	URL string
+}
+type Outer struct {
+	*Inner
+	Y int
+}
+
+// Misc: a renamed field, an unexported field, func-typed fields, an interface field, a nil pointer field.
+type Misc struct {
+	Tagged string `liquid:"URL"`
+	hidden int
+	Fn     func() string
+	NilFn  func() string
+	Any    any
+	PtrNil *Inner
+	M      map[string]any
+}
+
+// pageA and pageB return values of two DIFFERENT struct types that both print as univ.Page.
+func pageA() any {
+	type Page struct {
+		URL string
+		N   int
+	}
+	return Page{URL: "/a", N: 1}
+}
+
+func pageB() any {
+	type Page struct {
+		Title string
+		Extra [2]int
+		Tags  []string
+		URL   string
+		X     string
+	}
+	return &Page{Title: "B", URL: "/b", X: "bx"}
+}
+
 func c(v any) func() any { return func() any { return v } }
 
 func L(vs ...ref.V) ref.List { return ref.List(vs) }
@@ -219,6 +260,14 @@ func build() []Val {
 		extra("x_i8_m1", false, func() any { return int8(-1) }),
 		extra("x_i16_m300", false, func() any { return int16(-300) }),
 		extra("x_l_i8", false, func() any { return []int8{-1, 0, 1} }),
+		// structs: two distinct types that print the same name, embedded (nil) pointers, tags, unexported and func fields
+		extra("x_page_a", false, pageA),
+		extra("x_page_b", false, pageB),
+		extra("x_embed_nil", false, func() any { return Outer{Y: 1} }),
+		extra("x_embed_set", false, func() any { return &Outer{Inner: &Inner{X: "in", URL: "u"}, Y: 2} }),
+		extra("x_struct_misc", false, func() any {
+			return Misc{Tagged: "t", hidden: 3, Fn: func() string { return "fn" }, NilFn: nil, Any: []any{1}, PtrNil: nil, M: map[string]any{"URL": "m"}}
+		}),
 	}
 	return out
 }
